@@ -356,7 +356,7 @@ def _s4(ctx, f, pm, rd, kindvar, where, rel):
         if isinstance(n, ast.Assign) and len(n.targets) == 1 and isinstance(n.targets[0], ast.Subscript) \
                 and u(n.targets[0].slice) == "2" and u(n.value) == T:
             crops.append(("ref", n))
-    col.floor("crop_sites", len(crops), 2)
+    col.floor("crop_sites", len(crops), 1)  # (the alignment crop; the per-token end repair is a row of the S9 table)
     in_token_loop = _ref_token_loop_nodes(f)
     for kind, n in crops:
         if kind == "ref" and id(n) in in_token_loop:
@@ -876,6 +876,13 @@ def _ref_boundary_decision_table(ctx: Ctx):
                     env[rv][sl_.value] = val
                 else:
                     raise Und(u(st))
+                out.append(u(st))
+            elif isinstance(st, ast.AugAssign) and isinstance(st.target, ast.Subscript) and u(st.target.value) == rv \
+                    and isinstance(st.target.slice, ast.Constant) and st.target.slice.value in (1, 2) and isinstance(st.op, (ast.Add, ast.Sub)):
+                # `r[2] -= fix`
+                val = ev(st.value, env)
+                k_ = st.target.slice.value
+                env[rv][k_] = env[rv][k_] + val if isinstance(st.op, ast.Add) else env[rv][k_] - val
                 out.append(u(st))
             elif isinstance(st, ast.Assign) and len(st.targets) == 1 and isinstance(st.targets[0], ast.Name):
                 try:
